@@ -460,6 +460,7 @@ MUTANTS += [
     m("c19-newell-g-arcsinh-arg", ["C19"], T, "np.divide(x, np.sqrt(y2 + z2), out=np.zeros_like(x), where=(y2 + z2) != 0)", "np.divide(x, np.sqrt(y2 + x2), out=np.zeros_like(x), where=(y2 + z2) != 0)"),
     m("c19-N-off-diagonal-uses-f", ["C19"], T, "_N_element(x, z, y, (dx, dz, dy), _g),  # Nxz", "_N_element(x, z, y, (dx, dz, dy), _f),  # Nxz"),
     # pre-repair forms of AF21 / AF22
+    m("c17-nvdim-python-int-only", ["C17"], F, 'elif not isinstance(xa.attrs["nvdim"], numbers.Integral):', 'elif not isinstance(xa.attrs["nvdim"], int):'),
     m("c02-line-points-rank1", ["C02"], LN, "points = np.array(points).reshape((len(points), -1))", "points = np.array(points)"),
     m("c02-line-points-one-row", ["C02"], LN, "points = np.array(points).reshape((len(points), -1))", "points = np.array(points).reshape((1, -1))"),
     m("c10-h5-reader-no-dtype", ["C10"], H5, '            dtype=h5_field["array"].dtype,\n', ""),
